@@ -157,5 +157,9 @@ mod bcn;
 /// Reading the binary .dat files in the user folder (e.g. GEARSET.dat)
 pub mod dat;
 
+#[cfg(feature = "verif_sim")]
+#[doc(hidden)]
+pub mod vfs;
+
 mod error;
 pub use error::Error;
